@@ -222,6 +222,27 @@ def case_twin(c):
         V('twin_axes', 'fs of the two orientations differ by %.3g ulp' % (float(err.max()) / u_f))
     if not np.array_equal(a.ts, d.ts):
         V('twin_ts', 'ts differ')
+    # frequency -> index must not depend on the orientation flag: compared at EXACT half-channel ties too (which
+    # neighbour a tie resolves to is not decided -- that both orientations of the same band agree is)
+    if a.fmin == d.fmin and np.array_equal(a.fs, d.fs):
+        probes = []
+        for i in range(n):
+            for delta in (Fr(1, 2), Fr(1, 4), Fr(-1, 2)):
+                fx = F(a.fmin) + (i + delta) * F(df)
+                if F(float(fx)) == fx:          # exactly representable: the same real number reaches both frames
+                    probes.append(float(fx))
+        if probes:
+            ia = np.asarray(a.get_index(np.array(probes)))
+            id_ = np.asarray(d.get_index(np.array(probes)))
+            if not np.array_equal(ia, id_):
+                j = int(np.nonzero(ia != id_)[0][0])
+                V('twin_index', 'get_index(%r) = %d on the ascending frame but %d on the descending frame of the same band '
+                  '(fmin=%r, df=%r, fchans=%d)' % (probes[j], ia[j], id_[j], a.fmin, df, n))
+            sa = a.add_constant_signal(f_start=probes[len(probes) // 2], drift_rate=0.0, level=1.0, width=df, f_profile_type='box')
+            sd = d.add_constant_signal(f_start=probes[len(probes) // 2], drift_rate=0.0, level=1.0, width=df, f_profile_type='box')
+            if not np.array_equal(sa, sd):
+                V('twin_signal', 'add_constant_signal centred at %r differs between the two orientations of the same band' % probes[len(probes) // 2])
+            a.data[:] = 0; d.data[:] = 0
     ntriv = []
     k0 = n // 3
     probes = [
